@@ -24,8 +24,23 @@ use crate::{
 pub struct GffDesc {
     pub norm: Norm,
     pub classes: [TextClass; 5],
-    /// one-element values stored as `Value::Array`
-    pub single_as_array: bool,
+}
+
+/// Shape hint for the generator: the whole-file passes want "rich line, then minimal line"
+/// (and the reverse) next to each other.
+#[derive(Clone, Copy, Debug, PartialEq, Eq)]
+pub enum Hint {
+    Random,
+    Rich,
+    Minimal,
+}
+
+pub struct FileLine {
+    pub bytes: Vec<u8>,
+    /// what the per-line pass read (== the description but for the known seqid finding)
+    pub rec: Option<Norm>,
+    /// directive: key and value text
+    pub dir: Option<(Vec<u8>, Option<Vec<u8>>)>,
 }
 
 pub fn gen_score(rng: &mut Rng) -> Option<f32> {
@@ -94,43 +109,74 @@ pub fn gen_attrs(rng: &mut Rng, tag_class: impl Fn(&mut Rng) -> TextClass, val_c
     attrs
 }
 
-pub fn gen_record(rng: &mut Rng) -> GffDesc {
+pub fn gen_record(rng: &mut Rng, hint: Hint) -> GffDesc {
     let c_seqid = if rng.chance(1, 40) { TextClass::Empty } else { gen_class(rng, 1, 3) };
     // hostile sources/types are rarer: a raw TAB/LF there destroys the line and hides everything else
-    let c_source = gen_class(rng, 1, 8);
-    let c_type = gen_class(rng, 1, 8);
+    let (c_source, c_type) = if hint == Hint::Random { (gen_class(rng, 1, 8), gen_class(rng, 1, 8)) } else { (TextClass::Token, TextClass::Token) };
     let mut seen = Vec::new();
-    let attrs = gen_attrs(rng, |r| gen_class(r, 1, 3), |r| if r.chance(1, 25) { TextClass::Empty } else { gen_class(r, 1, 2) }, &mut seen);
+    let mut attrs = match hint {
+        Hint::Minimal => Vec::new(),
+        _ => gen_attrs(rng, |r| gen_class(r, 1, 3), |r| if r.chance(1, 25) { TextClass::Empty } else { gen_class(r, 1, 2) }, &mut seen),
+    };
+    if hint == Hint::Rich {
+        // many attributes, single values with literal commas, arrays whose elements contain commas
+        for (t, vs) in [("Note", vec!["kinase, putative"]), ("Alias", vec!["a,b", "c", "d,e,f"]), ("Dbxref", vec!["X:1", "Y:2", "Z:3", "W:4"]), ("Ontology_term", vec![","])] {
+            if !attrs.iter().any(|a| a.0 == t.as_bytes()) {
+                attrs.push((t.as_bytes().to_vec(), vs.into_iter().map(|v| v.as_bytes().to_vec()).collect()));
+            }
+        }
+    }
     seen.sort();
     seen.dedup();
     let c_tag = seen.iter().copied().find(|c| *c != TextClass::Token).unwrap_or(TextClass::Token);
     let c_val = seen.iter().copied().rev().find(|c| *c != TextClass::Token).unwrap_or(TextClass::Token);
-    let ty = if rng.chance(1, 6) { "CDS".to_string() } else if rng.chance(1, 2) { rng.pick(&["gene", "mRNA", "exon", "region", "."]).to_string() } else { gen_text(rng, c_type) };
+    let ty = match hint {
+        Hint::Minimal => "region".to_string(),
+        Hint::Rich => "CDS".to_string(),
+        Hint::Random => {
+            if rng.chance(1, 6) {
+                "CDS".to_string()
+            } else if rng.chance(1, 2) {
+                rng.pick(&["gene", "mRNA", "exon", "region", "."]).to_string()
+            } else {
+                gen_text(rng, c_type)
+            }
+        }
+    };
     let start = gen_position(rng);
     let end = if rng.chance(1, 10) { gen_position(rng) } else { start.saturating_add(rng.skewed(100_000) as usize) };
+    let (score, strand, phase) = match hint {
+        Hint::Minimal => (None, 0, None),
+        Hint::Rich => (Some(norm::score_bits(1234.5677)), 1 + rng.below(3) as u8, Some(rng.below(3) as u8)),
+        Hint::Random => (gen_score(rng).map(norm::score_bits), rng.below(4) as u8, if rng.chance(2, 5) { None } else { Some(rng.below(3) as u8) }),
+    };
+    let single_as_array = rng.chance(1, 6);
     GffDesc {
         norm: Norm {
             seqid: gen_text(rng, c_seqid).into_bytes(),
-            source: if rng.chance(1, 5) { b".".to_vec() } else { gen_text(rng, c_source).into_bytes() },
+            source: if hint == Hint::Minimal || rng.chance(1, 5) { b".".to_vec() } else { gen_text(rng, c_source).into_bytes() },
             ty: ty.into_bytes(),
             start,
             end,
-            score: gen_score(rng).map(norm::score_bits),
-            strand: rng.below(4) as u8,
-            phase: if rng.chance(2, 5) { None } else { Some(rng.below(3) as u8) },
+            score,
+            strand,
+            phase,
             attrs,
-        },
+            arrays: Vec::new(),
+        }
+        .with_shapes(single_as_array),
         classes: [c_seqid, c_source, c_type, c_tag, c_val],
-        single_as_array: rng.chance(1, 6),
     }
 }
 
-pub fn to_record_buf(n: &Norm, single_as_array: bool) -> RecordBuf {
+pub fn to_record_buf(n: &Norm) -> RecordBuf {
+    assert_eq!(n.arrays.len(), n.attrs.len(), "description without shapes");
     let attrs: Attributes = n
         .attrs
         .iter()
-        .map(|(k, vs)| {
-            let v = if vs.len() == 1 && !single_as_array { ValueBuf::String(BString::from(vs[0].clone())) } else { ValueBuf::Array(vs.iter().map(|v| BString::from(v.clone())).collect()) };
+        .zip(&n.arrays)
+        .map(|((k, vs), is_array)| {
+            let v = if !*is_array { ValueBuf::String(BString::from(vs[0].clone())) } else { ValueBuf::Array(vs.iter().map(|v| BString::from(v.clone())).collect()) };
             (BString::from(k.clone()), v)
         })
         .collect();
@@ -233,20 +279,22 @@ fn io_class(e: &std::io::Error) -> String {
     format!("{:?}", e.kind())
 }
 
-pub fn run_record(rng: &mut Rng, mon: &mut Mon, file: &mut Vec<(Vec<u8>, Option<Norm>)>) {
-    let d = gen_record(rng);
+pub fn run_record(rng: &mut Rng, hint: Hint, mon: &mut Mon, file: &mut Vec<FileLine>) {
+    let d = gen_record(rng, hint);
     check_record(&d, rng, mon, file);
 }
 
-/// Fixed records that are part of every run (witnesses of the known findings among them).
+/// Fixed records that are part of every run: witnesses of the known findings, values with literal
+/// commas, and rich/minimal lines next to each other for the whole-file passes.
 pub fn corpus() -> Vec<GffDesc> {
-    let base = Norm { seqid: b"chr1".to_vec(), source: b"src".to_vec(), ty: b"gene".to_vec(), start: 1, end: 10, score: None, strand: 1, phase: None, attrs: vec![(b"ID".to_vec(), vec![b"g1".to_vec()])] };
+    let base = Norm { seqid: b"chr1".to_vec(), source: b"src".to_vec(), ty: b"gene".to_vec(), start: 1, end: 10, score: None, strand: 1, phase: None, attrs: vec![(b"ID".to_vec(), vec![b"g1".to_vec()])], arrays: Vec::new() };
     let mut v = Vec::new();
     let mut add = |f: &dyn Fn(&mut Norm)| {
         let mut n = base.clone();
         f(&mut n);
-        v.push(GffDesc { norm: n, classes: [TextClass::Mixed; 5], single_as_array: false });
+        v.push(GffDesc { norm: n.with_shapes(false), classes: [TextClass::Mixed; 5] });
     };
+    let b = |s: &str| s.as_bytes().to_vec();
     add(&|_n| {});
     add(&|n| n.seqid = b"chr 1".to_vec());
     add(&|n| n.seqid = b"%zz1".to_vec());
@@ -260,12 +308,64 @@ pub fn corpus() -> Vec<GffDesc> {
     add(&|n| n.ty = b"a\x1bb".to_vec());
     add(&|n| n.attrs = vec![(b"Note;=".to_vec(), vec![b"a;b=c&d,e%f\tg\nh".to_vec(), b"".to_vec(), "é,測".as_bytes().to_vec()]), (b"Parent".to_vec(), vec![b"p1".to_vec(), b"p2".to_vec(), b"p3".to_vec()])]);
     add(&|n| n.attrs = Vec::new());
+    // a single value with a literal comma is a string, not an array
+    add(&|n| n.attrs = vec![(b("Note"), vec![b("kinase, putative")]), (b("Name"), vec![b(",")]), (b("Alias"), vec![b("a,b"), b("c,d")])]);
+    // rich line / minimal line / rich line / minimal line
+    let rich = |n: &mut Norm| {
+        n.score = Some(norm::score_bits(0.5));
+        n.strand = 2;
+        n.phase = Some(2);
+        n.ty = b("CDS");
+        n.attrs = vec![(b("ID"), vec![b("cds1")]), (b("Parent"), vec![b("m1"), b("m2"), b("m3")]), (b("Note"), vec![b("x, y")]), (b("Dbxref"), vec![b("A:1"), b("B:2")]), (b("Is_circular"), vec![b("true")])];
+    };
+    let minimal = |n: &mut Norm| {
+        n.source = b(".");
+        n.ty = b(".");
+        n.score = None;
+        n.strand = 0;
+        n.phase = None;
+        n.attrs = Vec::new();
+    };
+    add(&rich);
+    add(&minimal);
+    add(&rich);
+    add(&minimal);
+    add(&minimal);
+    add(&rich);
     v
 }
 
-pub fn check_record(d: &GffDesc, rng: &mut Rng, mon: &mut Mon, file: &mut Vec<(Vec<u8>, Option<Norm>)>) {
+/// All inherent accessors of the lazy GFF3 view.
+fn lazy_norm(rec: &gff::Record<'_>) -> Result<Norm, String> {
+    use gff::record::attributes::field::Value;
+    let mut attrs = Vec::new();
+    let mut arrays = Vec::new();
+    for item in rec.attributes().iter() {
+        let (k, v) = item.map_err(|e| format!("attributes().iter(): {e}"))?;
+        let vs: Vec<Vec<u8>> = match &v {
+            Value::String(s) => vec![s.to_vec()],
+            Value::Array(a) => a.iter().map(|s| s.to_vec()).collect(),
+        };
+        arrays.push(matches!(v, Value::Array(_)));
+        attrs.push((k.to_vec(), vs));
+    }
+    Ok(Norm {
+        seqid: rec.reference_sequence_name().to_vec(),
+        source: rec.source().to_vec(),
+        ty: rec.ty().to_vec(),
+        start: usize::from(rec.start().map_err(|e| e.to_string())?),
+        end: usize::from(rec.end().map_err(|e| e.to_string())?),
+        score: rec.score().transpose().map_err(|e| e.to_string())?.map(norm::score_bits),
+        strand: norm::strand_code(rec.strand().map_err(|e| e.to_string())?),
+        phase: rec.phase().transpose().map_err(|e| e.to_string())?.map(norm::phase_code),
+        attrs,
+        arrays,
+    })
+}
+
+pub fn check_record(d: &GffDesc, rng: &mut Rng, mon: &mut Mon, file: &mut Vec<FileLine>) {
     let n = &d.norm;
-    let rb = to_record_buf(n, d.single_as_array);
+    let rb = to_record_buf(n);
     mon.c("gff3.records_generated", 1);
     let how = rng.below(3);
     let rb2 = rb.clone();
@@ -350,6 +450,11 @@ pub fn check_record(d: &GffDesc, rng: &mut Rng, mon: &mut Mon, file: &mut Vec<(V
     }
     if let Some(f) = cmp.diff(n) {
         mon.v(format!("gff3-roundtrip:{f}"), format!("field {f}: wrote {n:?}\n as {}\n read back {gn:?}", show(&bytes)));
+    } else if let Some((what, i)) = n.shape_diff(&gn) {
+        mon.v(format!("gff3-roundtrip:attributes:{what}"), format!("attribute {} = {:?}: wrote {n:?}\n as {}\n read back {gn:?}", show(&n.attrs[i].0), n.attrs[i].1.iter().map(|v| show(v)).collect::<Vec<_>>(), show(&bytes)));
+    }
+    if n.attrs.iter().zip(&n.arrays).any(|(a, arr)| !*arr && a.1[0].contains(&b',')) {
+        mon.c("gff3.string_values_with_literal_comma", 1);
     }
     mon.c("gff3.records_read_back", 1);
 
@@ -359,27 +464,7 @@ pub fn check_record(d: &GffDesc, rng: &mut Rng, mon: &mut Mon, file: &mut Vec<(V
         let mut r = gff::io::Reader::new(&b3[..]);
         let line = r.lines().next().ok_or("lines() yields nothing")?.map_err(|e| format!("lines(): {e}"))?;
         let rec = line.as_record().ok_or("line is not a record")?.map_err(|e| format!("as_record(): {e}"))?;
-        // inherent accessors of the lazy view
-        let mut attrs = Vec::new();
-        for item in rec.attributes().iter() {
-            let (k, v) = item.map_err(|e| format!("attributes().iter(): {e}"))?;
-            let vs: Vec<Vec<u8>> = match &v {
-                gff::record::attributes::field::Value::String(s) => vec![s.to_vec()],
-                gff::record::attributes::field::Value::Array(a) => a.iter().map(|s| s.to_vec()).collect(),
-            };
-            attrs.push((k.to_vec(), vs));
-        }
-        let lz = Norm {
-            seqid: rec.reference_sequence_name().to_vec(),
-            source: rec.source().to_vec(),
-            ty: rec.ty().to_vec(),
-            start: usize::from(rec.start().map_err(|e| e.to_string())?),
-            end: usize::from(rec.end().map_err(|e| e.to_string())?),
-            score: rec.score().transpose().map_err(|e| e.to_string())?.map(norm::score_bits),
-            strand: norm::strand_code(rec.strand().map_err(|e| e.to_string())?),
-            phase: rec.phase().transpose().map_err(|e| e.to_string())?.map(norm::phase_code),
-            attrs,
-        };
+        let lz = lazy_norm(&rec)?;
         // the same view through the feature::Record trait
         let via_trait = Norm::of_feature_record(&rec).map_err(|e| format!("feature::Record accessors: {e}"))?;
         if via_trait != lz {
@@ -390,11 +475,12 @@ pub fn check_record(d: &GffDesc, rng: &mut Rng, mon: &mut Mon, file: &mut Vec<(V
         let mut gets = Vec::new();
         for (k, v) in owned.attributes().as_ref() {
             let want: Vec<Vec<u8>> = v.iter().map(|s| s.to_vec()).collect();
+            let want_array = matches!(v, ValueBuf::Array(_));
             let got = rec.attributes().get(k).and_then(|r| r.ok()).map(|v| match v {
-                gff::record::attributes::field::Value::String(s) => vec![s.to_vec()],
-                gff::record::attributes::field::Value::Array(a) => a.iter().map(|s| s.to_vec()).collect::<Vec<_>>(),
+                gff::record::attributes::field::Value::String(s) => (vec![s.to_vec()], false),
+                gff::record::attributes::field::Value::Array(a) => (a.iter().map(|s| s.to_vec()).collect::<Vec<_>>(), true),
             });
-            gets.push(got.as_ref() == Some(&want));
+            gets.push(got == Some((want, want_array)));
         }
         Ok((lz, Norm::of_record_buf(&owned), gets))
     });
@@ -404,9 +490,21 @@ pub fn check_record(d: &GffDesc, rng: &mut Rng, mon: &mut Mon, file: &mut Vec<(V
         Ok(Ok((lz, owned, gets))) => {
             if let Some(f) = lz.diff(&owned) {
                 mon.v(format!("gff3-lazy:{f}"), format!("lazy accessors {lz:?} != owned record built from the view {owned:?}"));
+            } else if lz != owned {
+                mon.v("gff3-lazy:attributes:string-vs-array", format!("lazy accessors {lz:?} != owned record built from the view {owned:?}"));
             }
             if let Some(f) = owned.diff(&gn) {
                 mon.v(format!("gff3-lazy:owned-ne-record_bufs:{f}"), format!("try_from_feature_record {owned:?} != record_bufs() {gn:?}"));
+            } else if owned != gn {
+                mon.v("gff3-lazy:owned-ne-record_bufs:attributes:string-vs-array", format!("try_from_feature_record {owned:?} != record_bufs() {gn:?}"));
+            }
+            // the lazy view against the description (tags/values equal => only the shape can differ)
+            let mut lzc = lz.clone();
+            lzc.seqid = n.seqid.clone();
+            if lzc.diff(n).is_none() {
+                if let Some((what, i)) = n.shape_diff(&lz) {
+                    mon.v(format!("gff3-lazy:attributes:{what}"), format!("attribute {}: described {n:?}, lazy view of {} says {lz:?}", show(&n.attrs[i].0), show(&bytes)));
+                }
             }
             if gets.iter().any(|ok| !ok) {
                 mon.v("gff3-lazy:attributes-get", format!("Attributes::get(tag) of the lazy view differs from the owned value on {}", show(&bytes)));
@@ -414,7 +512,7 @@ pub fn check_record(d: &GffDesc, rng: &mut Rng, mon: &mut Mon, file: &mut Vec<(V
             mon.c("gff3.lazy_views_compared", 1);
         }
     }
-    file.push((bytes, Some(gn)));
+    file.push(FileLine { bytes, rec: Some(gn), dir: None });
 }
 
 // -------------------------------------------------------------------------------------------
@@ -424,7 +522,7 @@ fn token(rng: &mut Rng) -> String {
     gen_text(rng, TextClass::Token)
 }
 
-pub fn run_directive(rng: &mut Rng, mon: &mut Mon, file: &mut Vec<(Vec<u8>, Option<Norm>)>) {
+pub fn run_directive(rng: &mut Rng, mon: &mut Mon, file: &mut Vec<FileLine>) {
     use directive_buf::key;
     let kind = rng.below(7);
     let d = match kind {
@@ -515,7 +613,7 @@ pub fn run_directive(rng: &mut Rng, mon: &mut Mon, file: &mut Vec<(Vec<u8>, Opti
                 mon.v("gff3-directive:lazy-ne-owned", format!("lazy key/value {} / {:?} vs owned {got:?}", show(&lkey), lval.as_deref().map(show)));
             }
             mon.c("gff3.directives_read_back", 1);
-            file.push((bytes, None));
+            file.push(FileLine { bytes, rec: None, dir: Some((got.key().to_vec(), owned_val)) });
         }
     }
 }
@@ -524,34 +622,128 @@ fn gen_position_small(rng: &mut Rng) -> usize {
     1 + rng.skewed(1_000_000_000) as usize
 }
 
-/// Whole-file pass: all intact lines of the batch concatenated, read through small buffers; the
-/// records must come back in order and equal to what the per-line pass saw.
-pub fn run_file(rng: &mut Rng, mon: &mut Mon, file: &[(Vec<u8>, Option<Norm>)]) {
+/// What one API saw for one line of a whole file.
+#[derive(Debug, PartialEq)]
+enum Seen {
+    Rec(Norm),
+    Dir(Vec<u8>, Option<Vec<u8>>),
+    Other,
+}
+
+fn seen_of_line(line: &gff::Line) -> Result<Vec<Seen>, String> {
+    // a record line is reported twice: lazy accessors, and the owned record built from the view
+    if let Some(d) = line.as_directive() {
+        return Ok(vec![Seen::Dir(d.key().to_vec(), d.value().map(|v| v.to_vec()))]);
+    }
+    match line.as_record() {
+        Some(r) => {
+            let rec = r.map_err(|e| format!("as_record(): {e}"))?;
+            let owned = RecordBuf::try_from_feature_record(&rec).map_err(|e| format!("try_from_feature_record: {e}"))?;
+            Ok(vec![Seen::Rec(lazy_norm(&rec)?), Seen::Rec(Norm::of_record_buf(&owned))])
+        }
+        None => Ok(vec![Seen::Other]),
+    }
+}
+
+/// Whole-file passes: all intact lines of the batch concatenated and read through ONE reader per
+/// API — `record_bufs()`, `line_bufs()`, a `read_line(&mut line)` loop over one reused `Line`, and
+/// `lines()` — through small buffers. Every record/directive must come back in order and equal to
+/// what the per-line pass saw (which was compared with the description); state carried over from a
+/// rich line to a minimal one (or back) shows up here.
+pub fn run_file(rng: &mut Rng, mon: &mut Mon, file: &[FileLine]) {
     let mut all = Vec::new();
-    for (b, _) in file {
-        all.extend_from_slice(b);
+    for f in file {
+        all.extend_from_slice(&f.bytes);
         if rng.chance(1, 10) {
             all.extend_from_slice(b"\n"); // blank lines are to be ignored
         }
     }
-    let expected: Vec<&Norm> = file.iter().filter_map(|f| f.1.as_ref()).collect();
+    // expected: per line one entry (directive / record)
+    let exp_lines: Vec<Seen> = file
+        .iter()
+        .map(|f| match (&f.rec, &f.dir) {
+            (Some(n), _) => Seen::Rec(n.clone()),
+            (_, Some((k, v))) => Seen::Dir(k.clone(), v.clone()),
+            _ => Seen::Other,
+        })
+        .collect();
+    let exp_recs: Vec<Seen> = file.iter().filter_map(|f| f.rec.clone()).map(Seen::Rec).collect();
+    let mut adj = 0u64;
+    for w in file.windows(2) {
+        if let (Some(a), Some(b)) = (&w[0].rec, &w[1].rec) {
+            if a.attrs.is_empty() != b.attrs.is_empty() {
+                adj += 1;
+            }
+        }
+    }
+    mon.c("gff3.file_adjacent_rich_minimal_pairs", adj);
     let cap = *rng.pick(&[1usize, 2, 5, 16, 4096]);
-    let got = guard::catch(move || -> std::io::Result<(Vec<Norm>, usize)> {
+    type Pass = (&'static str, Vec<Seen>, usize);
+    let got = guard::catch(move || -> Result<Vec<Pass>, String> {
+        let mut out: Vec<Pass> = Vec::new();
         let mut r = gff::io::Reader::new(BufReader::with_capacity(cap, &all[..]));
-        let recs = r.record_bufs().map(|x| x.map(|r| Norm::of_record_buf(&r))).collect::<std::io::Result<Vec<_>>>()?;
+        let recs = r.record_bufs().map(|x| x.map(|r| Seen::Rec(Norm::of_record_buf(&r)))).collect::<std::io::Result<Vec<_>>>().map_err(|e| format!("record_bufs(): {e}"))?;
+        out.push(("record_bufs", recs, 1));
         let mut r = gff::io::Reader::new(BufReader::with_capacity(cap, &all[..]));
-        let n = r.line_bufs().collect::<std::io::Result<Vec<_>>>()?.len();
-        Ok((recs, n))
+        let mut v = Vec::new();
+        for lb in r.line_bufs() {
+            v.push(match lb.map_err(|e| format!("line_bufs(): {e}"))? {
+                LineBuf::Record(rb) => Seen::Rec(Norm::of_record_buf(&rb)),
+                LineBuf::Directive(d) => Seen::Dir(
+                    d.key().to_vec(),
+                    match d.value() {
+                        Some(DValue::String(s)) => Some(s.to_vec()),
+                        None => None,
+                        Some(o) => Some(format!("{o:?}").into_bytes()),
+                    },
+                ),
+                LineBuf::Comment(_) => Seen::Other,
+            });
+        }
+        out.push(("line_bufs", v, 1));
+        // one reused lazy line
+        let mut r = gff::io::Reader::new(BufReader::with_capacity(cap, &all[..]));
+        let mut line = gff::Line::default();
+        let mut v = Vec::new();
+        while r.read_line(&mut line).map_err(|e| format!("read_line(): {e}"))? != 0 {
+            v.extend(seen_of_line(&line)?);
+        }
+        out.push(("read_line", v, 2));
+        let mut r = gff::io::Reader::new(BufReader::with_capacity(cap, &all[..]));
+        let mut v = Vec::new();
+        for l in r.lines() {
+            v.extend(seen_of_line(&l.map_err(|e| format!("lines(): {e}"))?)?);
+        }
+        out.push(("lines", v, 2));
+        Ok(out)
     });
     match got {
         Err(p) => mon.v(format!("gff3-file:panic:{}", p.sig), p.message),
         Ok(Err(e)) => mon.v("gff3-file:reader-error", format!("reading {} concatenated lines: {e}", file.len())),
-        Ok(Ok((recs, nlines))) => {
-            if nlines != file.len() {
-                mon.v("gff3-file:line-count", format!("{} lines written, line_bufs() yields {nlines}", file.len()));
-            }
-            if recs.len() != expected.len() || recs.iter().zip(&expected).any(|(a, b)| a != *b) {
-                mon.v("gff3-file:records-ne-per-line-pass", format!("{} records expected, {} read; first difference at #{:?}", expected.len(), recs.len(), recs.iter().zip(&expected).position(|(a, b)| a != *b)));
+        Ok(Ok(passes)) => {
+            for (api, seen, per_rec) in passes {
+                // expected sequence for this API (record lines reported `per_rec` times by the lazy APIs)
+                let base = if api == "record_bufs" { &exp_recs } else { &exp_lines };
+                let mut exp: Vec<&Seen> = Vec::new();
+                for e in base {
+                    let k = if matches!(e, Seen::Rec(_)) { per_rec } else { 1 };
+                    for _ in 0..k {
+                        exp.push(e);
+                    }
+                }
+                if seen.len() != exp.len() {
+                    mon.v(format!("gff3-file:{api}:line-count"), format!("{} entries expected, {api} yields {}", exp.len(), seen.len()));
+                    continue;
+                }
+                if let Some(i) = seen.iter().zip(&exp).position(|(a, b)| a != *b) {
+                    let what = match (&seen[i], exp[i]) {
+                        (Seen::Rec(a), Seen::Rec(b)) => format!("record:{}", a.diff(b).unwrap_or("attributes:string-vs-array")),
+                        (Seen::Dir(..), Seen::Dir(..)) => "directive".to_string(),
+                        _ => "line-kind".to_string(),
+                    };
+                    mon.v(format!("gff3-file:{api}:{what}"), format!("entry #{i} of the file read through one reader: {api} gives {:?}, the per-line pass (== description) gave {:?}; previous entry: {:?}", seen[i], exp[i], i.checked_sub(1).map(|j| &seen[j])));
+                }
+                mon.c(&format!("gff3.file_entries_compared[{api}]"), seen.len() as u64);
             }
             mon.c("gff3.files_read", 1);
             mon.evals += 1;
